@@ -727,7 +727,10 @@ def header_imports():
     defines = dict((k, int(v)) for k, v in re.findall(r"#define\s+(WRITE_RESULT_\w+)\s+(\d+)", hdr))
     # functions whose prototype takes a pointer (into guest memory): the ones the trampoline has to wrap
     global HEADER_POINTER_FNS
-    HEADER_POINTER_FNS = sorted(n for n, params in re.findall(r'import_name\("([^"]+)"\)\)\)?\s*extern\s+[^;(]*\(([^)]*)\)\s*;', hdr) if "*" in params)
+    # (comments removed first: they may sit anywhere, also inside a prototype, and may contain `*`)
+    hdr_nc = re.sub(r"/\*.*?\*/", " ", hdr, flags=re.S)
+    hdr_nc = re.sub(r"//[^\n]*", " ", hdr_nc)
+    HEADER_POINTER_FNS = sorted(n for n, params in re.findall(r'import_name\s*\(\s*"([^"]+)"\s*\)\s*\)\s*\)?\s*(?:extern\s+)?[^;(]*\(([^)]*)\)\s*;', hdr_nc) if "*" in params)
     if not HEADER_POINTER_FNS:
         raise ExtractError("no prototype with a pointer parameter found in the C header")
     return [i for i in imps if i[1] in names], (m.group(1) if m else ""), defines
